@@ -10,8 +10,8 @@ from . import _eval as E
 
 ID = "C03"
 SETS = {
-    "quick": ["U1L", "U1K3", "R2K", "P:P0q", "P:P1q", "P:P3q", "P:P6q", "BYTES"],
-    "thorough": ["U1L_all", "U1K3", "U2K", "P:P0", "P:P1", "P:P3", "P:P4", "P:P6", "BYTES"],
+    "quick": ["U1L", "U1K3", "R2K", "P:P0q", "P:P1q", "P:P3q", "P:P6q", "P:P7q", "BYTES"],
+    "thorough": ["U1L_all", "U1K3", "U2K", "P:P0", "P:P1", "P:P3", "P:P4", "P:P6", "P:P7", "BYTES"],
 }
 WR = {"quick": (2, 2), "thorough": (2, 2)}
 NWIRE = {"quick": 8, "thorough": 14}
